@@ -707,9 +707,88 @@ func installStringModels(m *Machine) {
 		return []Val{strconv.FormatBool(b)}, true
 	}
 	m.Hooks["fmt.Errorf"] = func(m *Machine, st *State, call *ssa.CallCommon, args []Val) ([]Val, bool) {
+		if format, ok := args[0].(string); ok && strings.Contains(format, "%w") && len(args) > 1 {
+			// the operand of the first %w verb is wrapped
+			k, idx := 0, -1
+			for i := 0; i+1 < len(format); i++ {
+				if format[i] != '%' {
+					continue
+				}
+				j := i + 1
+				for j < len(format) && strings.ContainsRune("+-# 0123456789.[]*", rune(format[j])) {
+					j++
+				}
+				if j < len(format) {
+					if format[j] == 'w' && idx < 0 {
+						idx = k
+					}
+					if format[j] != '%' {
+						k++
+					}
+				}
+				i = j
+			}
+			if elems, many, ok := m.sliceElems(st, args[1]); ok && !many && idx >= 0 && idx < len(elems) {
+				if inner, isErr := elems[idx].(IfaceV); isErr {
+					return []Val{IfaceV{T: errT, V: WrapErrV{Inner: inner}}}, true
+				}
+			}
+		}
 		return []Val{IfaceV{T: errT, V: "error"}}, true
 	}
-	m.Hooks["errors.New"] = m.Hooks["fmt.Errorf"]
+	m.Hooks["errors.New"] = func(m *Machine, st *State, call *ssa.CallCommon, args []Val) ([]Val, bool) {
+		return []Val{IfaceV{T: errT, V: "error"}}, true
+	}
+	installErrorsModels(m)
+	installRegexpModel(m)
+}
+
+// installErrorsModels: errors.Is / errors.Unwrap over the error values of the interpreter (identity of the value, or
+// of a value it wraps through fmt.Errorf's %w).
+func installErrorsModels(m *Machine) {
+	none := func(i int) string { return fmt.Sprint(i) }
+	m.Hooks["errors.Is"] = func(m *Machine, st *State, call *ssa.CallCommon, args []Val) ([]Val, bool) {
+		if _, isNil := args[1].(nilV); isNil {
+			_, errNil := args[0].(nilV)
+			return []Val{errNil}, true
+		}
+		want := fmtVal(args[1], none)
+		cur := args[0]
+		for i := 0; i < 16; i++ {
+			if _, isNil := cur.(nilV); isNil {
+				return []Val{false}, true
+			}
+			iv, ok := cur.(IfaceV)
+			if !ok {
+				return nil, false
+			}
+			if fmtVal(iv, none) == want {
+				return []Val{true}, true
+			}
+			if _, isRepo := iv.V.(Ptr); isRepo {
+				return nil, false // a repository error type may have its own Is / Unwrap
+			}
+			w, wraps := iv.V.(WrapErrV)
+			if !wraps {
+				return []Val{false}, true
+			}
+			cur = w.Inner
+		}
+		return nil, false
+	}
+	m.Hooks["errors.Unwrap"] = func(m *Machine, st *State, call *ssa.CallCommon, args []Val) ([]Val, bool) {
+		iv, ok := args[0].(IfaceV)
+		if !ok {
+			return []Val{nilV{}}, true
+		}
+		if _, isRepo := iv.V.(Ptr); isRepo {
+			return nil, false
+		}
+		if w, wraps := iv.V.(WrapErrV); wraps {
+			return []Val{w.Inner}, true
+		}
+		return []Val{nilV{}}, true
+	}
 }
 
 // initState returns a fresh state in which the initialisers of the given
@@ -723,6 +802,8 @@ func initState(m *Machine, pkgs ...string) *State {
 		st.Status = stStuck
 		st.Msg = why
 	}
+	st.InitMark = st.next
+	st.GlobalWrite = ""
 	return st
 }
 
@@ -771,6 +852,11 @@ func repoPred(m *Machine, v Val, failed *bool) func(rune) bool {
 	}
 	return func(r rune) bool {
 		st := &State{Heap: map[int]*HObj{}, Notes: map[string]bool{}}
+		if m.Base != nil {
+			st = m.Base.Clone() // predicates may consult package-level tables
+			st.Status = stRun
+			st.Frames = nil
+		}
 		st.push(f, []Val{int64(r)}, fv.Bind)
 		out := m.Run(st)
 		if len(out) != 1 || out[0].Status != stRet {
@@ -808,6 +894,24 @@ func installFuncModels(m *Machine) {
 	m.Hooks["strings.TrimLeftFunc"] = mk(func(s string, p func(rune) bool) Val { return strings.TrimLeftFunc(s, p) })
 	m.Hooks["strings.TrimFunc"] = mk(func(s string, p func(rune) bool) Val { return strings.TrimFunc(s, p) })
 	m.Hooks["strings.IndexFunc"] = mk(func(s string, p func(rune) bool) Val { return int64(strings.IndexFunc(s, p)) })
+	m.Hooks["strings.LastIndexFunc"] = mk(func(s string, p func(rune) bool) Val { return int64(strings.LastIndexFunc(s, p)) })
+	m.Hooks["strings.ContainsFunc"] = mk(func(s string, p func(rune) bool) Val { return strings.ContainsFunc(s, p) })
+	m.Hooks["strings.FieldsFunc"] = func(m *Machine, st *State, call *ssa.CallCommon, args []Val) ([]Val, bool) {
+		s, ok := args[0].(string)
+		pr := unicodePred(args[1])
+		failed := false
+		if pr == nil {
+			pr = repoPred(m, args[1], &failed)
+		}
+		if !ok || pr == nil {
+			return nil, false
+		}
+		res := strings.FieldsFunc(s, pr)
+		if failed {
+			return nil, false
+		}
+		return []Val{strSlice(st, res)}, true
+	}
 }
 
 // installLineReader models the line-oriented read methods of *bufio.Reader (ReadString, ReadBytes,
